@@ -1064,7 +1064,7 @@ func bbCase(t *rapid.T, c *ev.Case) {
 				if _, err := regexp.Compile(pat); err != nil {
 					return
 				}
-				if cls := knownRegexDefect(pat); cls != "" {
+				if cls := knownRegexDefectFor(pat, u.vals[string(n.K)]); cls != "" {
 					c.Excluded(cls)
 					return
 				}
@@ -1084,6 +1084,17 @@ func bbCase(t *rapid.T, c *ev.Case) {
 						c.Class("pred_unknown_key_repointed")
 					}
 				})
+			}
+			// a re-pointed regex leaf now runs over the values of another key: those values join the probe strings
+			repointedDefect := ""
+			p.walk(func(n *pnode) {
+				if n.leaf() && (n.Op == "=~" || n.Op == "!~") && repointedDefect == "" {
+					repointedDefect = knownRegexDefectFor(string(n.V), u.vals[string(n.K)])
+				}
+			})
+			if repointedDefect != "" {
+				c.Excluded(repointedDefect)
+				continue
 			}
 			chk := &bbCheck{Mst: mst, Pred: p}
 			if rapid.IntRange(0, 11).Draw(t, "tvabsent") == 0 {
